@@ -1,3 +1,4 @@
+import BasicModel.Thm.Tables
 import BasicModel.Lemmas.LexList
 import BasicModel.Lemmas.LexPost
 import BasicModel.Lemmas.LexStable
@@ -427,6 +428,14 @@ theorem adjacent_comparisons_not_faithful :
     (lex (relist "CLEAR = < < =".toList)).2 =
       [.word .clear, .whitespace 1, .operator .less, .operator .lessEqual, .operator .equal] := by
   decide +kernel
+
+/-- the model's reserved-word table, minutia table and keyword spellings are the ones re-extracted from
+    `token.rs` on this run (`Gen/Keywords.lean`): an edit of a table in the Rust source breaks this obligation -/
+theorem tables_generated :
+    Lex.keywords = Gen.keywords ∧ (∀ p ∈ Gen.minutia, Lex.matchMinutia p.1 = some p.2) ∧
+    (∀ p ∈ Gen.wordText, Word.text p.1 = p.2.toList) ∧ (∀ p ∈ Gen.operatorText, Operator.text p.1 = p.2.toList) :=
+  ⟨Thm.Tables.keywords_generated, Thm.Tables.minutia_generated, Thm.Tables.word_text_generated,
+   Thm.Tables.operator_text_generated⟩
 
 end C05
 end Thm
